@@ -123,8 +123,17 @@ def load_known_findings():
         return json.load(fh)
 
 
+def evidence_dir():
+    """/verif/evidence for runs against /repo itself; a scratch directory for runs against any other
+    tree (seeded changes, mutants), so that committed evidence always describes /repo."""
+    d = os.environ.get("VERIF_EVIDENCE_DIR")
+    if not d:
+        d = os.path.join(VERIF, "evidence") if os.path.realpath(factsmod.REPO) == "/repo" else "/tmp/verif-scratch-evidence"
+    os.makedirs(d, exist_ok=True)
+    return d
+
+
 def write_evidence(prop, tier, level, ctx, violations_unlisted, known_hits, wall, explanation, assumptions, extra=None):
-    os.makedirs(os.path.join(VERIF, "evidence"), exist_ok=True)
     inst = ctx.instances
     distinct = set()
     for rule, cfg, where, detail, nontrivial, sample in inst:
@@ -167,7 +176,7 @@ def write_evidence(prop, tier, level, ctx, violations_unlisted, known_hits, wall
         "wall_s": round(wall, 2),
         "violations": len(violations_unlisted),
     }
-    p = os.path.join(VERIF, "evidence", prop + ".json")
+    p = os.path.join(evidence_dir(), prop + ".json")
     tmp = p + ".tmp"
     with open(tmp, "w") as fh:
         json.dump(ev, fh, indent=1)
